@@ -160,7 +160,14 @@ def algo_validate(a):
     return {"ret": r is True, "rett": type(r).__name__}
 
 
-HANDLERS.update({"bban.nat": bban_nat, "algo.validate": algo_validate})
+def algo_list(a):
+    from schwifty.checksum import algorithms
+    de = sorted(k[3:] for k in algorithms if k.startswith("DE:"))
+    nat = sorted(k[:2] for k in algorithms if k.endswith(":default") and not k.startswith("DE:"))
+    return {"de": de, "nat": [C(x) for x in nat]}
+
+
+HANDLERS.update({"bban.nat": bban_nat, "algo.validate": algo_validate, "algo.list": algo_list})
 
 
 # ---------------------------------------------------------------- generation
